@@ -64,6 +64,7 @@ class FnTarget:
         self.omit = False
         self.canary = True
         self.opt_member = False  # `//@ fn? NAME`: the member may be absent from the impl/trait (skipped + recorded)
+        self.tfe = None        # R18: (ghost iterator name or None, invariant text) for `RECV.iter().try_for_each(|p| body)` in tail position
         self.attrs = None      # `//@ fn-prefix`: attribute text put before this fn (e.g. #[verifier::when_used_as_spec(..)])
 
 
@@ -226,6 +227,8 @@ class Assembler:
                         tgt.loop_parts[(cur_field[1], cur_field[2])] = text
                     elif kind == 'tail':
                         tgt.tail = text
+                    elif kind == 'tfe':
+                        tgt.tfe = (cur_field[1], text)
                     elif kind == 'closure':
                         tgt.closures[cur_field[1]] = text
                     elif kind == 'hint-last':
@@ -402,6 +405,30 @@ class Assembler:
                                 else:
                                     raise UnitSyntax('line %d: bad instantiate part %r' % (i + 1, p_))
                             blk.instantiate = (gen_, subst_, where_)
+                        elif d in ('try-for-each-to-loop', 'try-for-each-to-loop?') or d.startswith('try-for-each-to-loop ') or d.startswith('try-for-each-to-loop? '):
+                            # R18 (opt-in, per fn target; the lines that follow are the loop annotation, `iter=NAME` names the ghost
+                            # iterator): the TAIL expression `RECV.iter().try_for_each(|PAT| BODY)` of the fn is written by the
+                            # definition of Iterator::try_for_each for a Result:
+                            #     for PAT in [NAME:] RECV.iter() <annotation> { (BODY)?; } Ok(())
+                            # (stops at the first Err and returns it, otherwise Ok(()); in tail position the `?` returns exactly that
+                            # error from the fn, whose error type is the closure's -- the original would not type-check otherwise).
+                            # vstd has no specification for the adapter and Verus rejects the closure that borrows `self` mutably.
+                            # Anchor lost when the fn has no such tail expression.
+                            # `try-for-each-to-loop?`: when the fn no longer ends in such a call the rewrite is skipped (recorded) and the
+                            # contract of the fn decides, instead of ending anchor-lost
+                            opts_ = d[len('try-for-each-to-loop'):].split()
+                            if opts_ and opts_[0] == '?':
+                                opts_ = opts_[1:]
+                                blk.cur.optional.add(('tfe',))
+                            elif d.startswith('try-for-each-to-loop?'):
+                                opts_ = d[len('try-for-each-to-loop?'):].split()
+                                blk.cur.optional.add(('tfe',))
+                            nm_ = None
+                            for opt in opts_:
+                                if not re.match(r'^iter=[A-Za-z_]\w*$', opt):
+                                    raise UnitSyntax('line %d: bad try-for-each-to-loop option %r' % (i + 1, opt))
+                                nm_ = opt[5:]
+                            cur_field = ('tfe', nm_)
                         elif d == 'supertrait-sized':
                             # R17 (opt-in, trait block): the trait is emitted with the supertrait `Sized`.  A ghost `spec fn` member whose
                             # result mentions `Self` by value (the state of a visitor AFTER a call) needs it; refused (anchor lost) when
@@ -553,7 +580,7 @@ class Assembler:
                 # is written in the tree (a contract that survives the renaming of a parameter, `_dim_list` -> `dim_list`)
                 tgt.params_resolved = True
                 used = [bool(x and re.search(r'\$\d', x)) for x in
-                        [tgt.spec, tgt.head, tgt.tail] + list(tgt.loops.values()) + [h[1] for h in tgt.hints]]
+                        [tgt.spec, tgt.head, tgt.tail, (tgt.tfe[1] if tgt.tfe else None)] + list(tgt.loops.values()) + [h[1] for h in tgt.hints]]
                 if any(used):
                     names = self._param_names(src, fn_item)
 
@@ -568,6 +595,8 @@ class Assembler:
                     tgt.spec, tgt.head, tgt.tail = _res(tgt.spec), _res(tgt.head), _res(tgt.tail)
                     tgt.loops = {k_: _res(v_) for k_, v_ in tgt.loops.items()}
                     tgt.hints = [(a_, _res(b_), c_) for (a_, b_, c_) in tgt.hints]
+                    if tgt.tfe:
+                        tgt.tfe = (tgt.tfe[0], _res(tgt.tfe[1]))
                     self.rewrites.append('P %s fn %s: $N in the spliced text = parameter names %s' % (blk.relpath, fn_item.name, names))
             if tgt and tgt.attrs:
                 edits.append((fn_item.kw_start, fn_item.kw_start, tgt.attrs.strip() + '\n'))
@@ -621,6 +650,13 @@ class Assembler:
                 edits.append((st[b].start, st[b].start, '\n' + tgt.tail + '\n'))
             if blk.let_chain:
                 self._let_chain_edits(src, blk, fn_item, edits)
+            if tgt and tgt.tfe is not None:
+                try:
+                    self._try_for_each_edits(src, blk, fn_item, tgt, edits)
+                except AnchorLost as e_:
+                    if ('tfe',) not in tgt.optional:
+                        raise
+                    self.dropped.append('O %s fn %s: %s -- optional rewrite skipped' % (blk.relpath, fn_item.name, e_))
             # loops, closures, R1, R2 inside the body
             k = a + 1
             loop_no = 0
@@ -1111,6 +1147,66 @@ class Assembler:
         self.pieces.append(Piece('\n', blk.relpath, None))
         for w in wrap:
             self.pieces.append(Piece('}\n', blk.relpath, None))
+
+    def _try_for_each_edits(self, src, blk, fn_item, tgt, edits):
+        """R18: tail expression `RECV.iter().try_for_each(|PAT| BODY)` -> `for PAT in RECV.iter() { (BODY)?; } Ok(())`"""
+        st = src.st
+        text = src.text
+        a, b = fn_item.st_body
+        # the call must close right before the `}` of the fn body
+        if st[b - 1].text != ')':
+            raise AnchorLost('R18: fn %s does not end in a call (%s)' % (fn_item.name, blk.relpath))
+        # find the matching '(' of the last ')'
+        depth, k = 0, b - 1
+        while k > a:
+            tx = st[k].text if st[k].kind == 'punct' else ''
+            if tx in (')', ']', '}'):
+                depth += 1
+            elif tx in ('(', '[', '{'):
+                depth -= 1
+                if depth == 0:
+                    break
+            k -= 1
+        p_open = k
+        if not (st[p_open - 1].text == 'try_for_each' and st[p_open - 2].text == '.' and st[p_open - 3].text == ')'
+                and st[p_open - 4].text == '(' and st[p_open - 5].text == 'iter' and st[p_open - 6].text == '.'):
+            raise AnchorLost('R18: the tail expression of fn %s is not `RECV.iter().try_for_each(..)` (%s)' % (fn_item.name, blk.relpath))
+        # the closure `|PAT| BODY`
+        if st[p_open + 1].text != '|':
+            raise AnchorLost('R18: try_for_each of fn %s is not given a closure (%s)' % (fn_item.name, blk.relpath))
+        q = p_open + 2
+        d2 = 0
+        while not (st[q].text == '|' and d2 == 0):
+            if st[q].kind == 'punct' and st[q].text in '([{':
+                d2 += 1
+            elif st[q].kind == 'punct' and st[q].text in ')]}':
+                d2 -= 1
+            q += 1
+        pat = text[st[p_open + 2].start:st[q - 1].end] if q > p_open + 2 else '_'
+        body_s, body_e = st[q + 1].start, st[b - 2].end
+        # the receiver: from the start of the tail expression (after the last `;` at depth 0 of the body, or the body start)
+        r0 = a + 1
+        d3 = 0
+        for j in range(a + 1, p_open - 6):
+            tj = st[j]
+            if tj.kind == 'punct' and tj.text in '([{':
+                d3 += 1
+            elif tj.kind == 'punct' and tj.text in ')]}':
+                d3 -= 1
+                if d3 == 0 and tj.text == '}':
+                    r0 = j + 1
+            elif d3 == 0 and tj.kind == 'punct' and tj.text == ';':
+                r0 = j + 1
+        if r0 > p_open - 7:
+            raise AnchorLost('R18: no receiver for .iter().try_for_each in fn %s (%s)' % (fn_item.name, blk.relpath))
+        nm, ann = tgt.tfe
+        recv = text[st[r0].start:st[p_open - 4 + 1].end]          # RECV.iter()
+        edits.append((st[r0].start, st[r0].start, 'for %s in %s' % (pat, (nm + ': ') if nm else '')))
+        # RECV.iter() stays verbatim; `.try_for_each(|PAT|` is replaced by the annotation and `{ (`
+        edits.append((st[p_open - 2].start, st[q].end, '\n' + (ann or '') + '\n{ ('))
+        edits.append((st[b - 1].start, st[b - 1].end, ')?; }\nOk(())'))
+        self.rewrites.append('R18 %s:%d tail expression `%s.try_for_each(|%s| ..)` of fn %s written as a for loop with `?`'
+                             % (blk.relpath, src.line_of(st[r0].start), ' '.join(recv.split()), ' '.join(pat.split()), fn_item.name))
 
     def _sized_edits(self, src, blk, item, edits):
         """R17: `trait NAME<..> {` -> `trait NAME<..>: Sized {` after checking that the crate has no `dyn NAME` / `NAME<..> + ?Sized`"""
